@@ -125,7 +125,7 @@ def call(entry: str, value, keyarg, reg, sender=None, detached=None):
     from joserfc import jws, jwe, jwt, rfc7797
     rj, r7, re_ = reg
     if isinstance(value, dict):
-        value = copy.deepcopy(value)
+        value = _cp(value)
     with warnings.catch_warnings():
         warnings.simplefilter("ignore")
         if entry == "jws.deserialize_compact":
@@ -476,6 +476,28 @@ def _char_fault(rng: Rng, s: str):
     return s[:pos] + rng.pick(["=", "==", ".", " ", "\n", "€", "\ud800"]) + s[pos:], "char inserted at %d" % pos
 
 
+def _cp(x):
+    """copy of a JSON-like structure without recursion (junk values are nested deeper than copy.deepcopy can follow)"""
+    def shell(o):
+        return {} if isinstance(o, dict) else [] if isinstance(o, list) else o
+    root = shell(x)
+    stack = [(x, root)]
+    while stack:
+        src, dst = stack.pop()
+        if isinstance(src, dict):
+            for k, v in src.items():
+                dst[k] = c = shell(v)
+                if isinstance(v, (dict, list)):
+                    stack.append((v, c))
+        elif isinstance(src, list):
+            for v in src:
+                c = shell(v)
+                dst.append(c)
+                if isinstance(v, (dict, list)):
+                    stack.append((v, c))
+    return root
+
+
 def json_shape(rng: Rng, tok: dict, family: str):
     """documented shape, arbitrary contents: required members keep their declared Python type"""
     tok = copy.deepcopy(tok)
@@ -483,6 +505,13 @@ def json_shape(rng: Rng, tok: dict, family: str):
                 b64.enc(b"\xff\xfe"), b64.enc(b"{\"alg\":[\"HS256\"]}"), b64.enc(b"{\"alg\":\"none\"}"), b64.enc(b"{}"), "a.b"]
     junk_dict = [{}, {"alg": 1}, {"alg": "HS256"}, {"kid": ["x"]}, {"crit": "b64"}, {"epk": "x"}, {"alg": None}, {"enc": 7}, {"b64": "no", "crit": ["b64"]},
                  {"alg": "ECDH-ES", "epk": {"kty": "EC", "crv": "P-999", "x": "AA", "y": "AA"}}, {"zzz": {"deep": [1, 2, {"x": None}]}}]
+    if rng.chance(0.15):
+        # values nested as deeply as a JSON parser lets through (and deeper: the dict may come from any parser)
+        depth = rng.pick([200, 600, 990, 1400])
+        deep = rng.pick([[], {}, 1])
+        for _i in range(depth):
+            deep = [deep] if rng.chance(0.5) else {"n": deep}
+        junk_dict = junk_dict + [{"zzz": deep}, {"kid": deep}, {"crit": deep}, {"alg": "HS256", "x": deep}]
     notes = []
     for _ in range(rng.randrange(1, 4)):
         if family == "jws":
@@ -499,11 +528,11 @@ def json_shape(rng: Rng, tok: dict, family: str):
                     if rng.chance(0.7):
                         e["protected"] = rng.pick(junk_str)
                     if rng.chance(0.5):
-                        e["header"] = copy.deepcopy(rng.pick(junk_dict))
+                        e["header"] = _cp(rng.pick(junk_dict))
                     tok["signatures"].append(e)
             elif choice == "header":
                 tgt = tok["signatures"][0] if tok.get("signatures") else tok
-                tgt["header"] = copy.deepcopy(rng.pick(junk_dict))
+                tgt["header"] = _cp(rng.pick(junk_dict))
             elif choice == "drop-optional":
                 tgt = tok["signatures"][0] if tok.get("signatures") else tok
                 tgt.pop(rng.pick(["protected", "header"]), None)
@@ -522,13 +551,13 @@ def json_shape(rng: Rng, tok: dict, family: str):
                 for _i in range(rng.randrange(0, 4)):
                     e = {}
                     if rng.chance(0.7):
-                        e["header"] = copy.deepcopy(rng.pick(junk_dict))
+                        e["header"] = _cp(rng.pick(junk_dict))
                     if rng.chance(0.7):
                         e["encrypted_key"] = rng.pick(junk_str)
                     tok["recipients"].append(e)
             elif choice in ("header", "unprotected"):
                 tgt = tok if choice == "unprotected" or "recipients" not in tok else (tok["recipients"][0] if tok["recipients"] else tok)
-                tgt[choice if choice == "unprotected" or "recipients" not in tok else "header"] = copy.deepcopy(rng.pick(junk_dict))
+                tgt[choice if choice == "unprotected" or "recipients" not in tok else "header"] = _cp(rng.pick(junk_dict))
             elif choice == "drop-optional":
                 tok.pop(rng.pick(["aad", "unprotected", "header", "encrypted_key"]), None)
             elif choice == "encrypted_key":
@@ -550,43 +579,73 @@ def run(rng: Rng, tier: str, index: int) -> RunResult:
     irng = rng.sub("inputs")
     for i in range(n):
         g = irng.sub(i)
-        sender = None
         try:
-            if g.chance(0.06):
-                entry, tok, kname, note = gen_random_input(g)
-            elif g.chance(0.5):
-                entry, tok, kname, note = gen_jws_input(w, g)
-            else:
-                entry, tok, kname, note, snd = gen_jwe_input(w, g)
-                if snd is not None and g.chance(0.85):
-                    sender = K.to_jose_fast(snd.public(), False)
-                    if g.chance(0.4):
-                        # the sender's keys come as a key set of mixed key types; the token (not the caller) names one by "skid"
-                        sender = "set"
-                        skid = g.pick(["sender", "rsa", "oct", "ed", "x", "nope", 7])
-                        tok = relabel(tok, "skid", skid, where="protected" if isinstance(tok, str) or g.chance(0.5) else "recipient")
-                        note += " + skid := %r against a sender key set" % (skid,)
+            entry, tok, kname, note, sender, kkind, kname_used, rname = gen_input(w, g)
         except Exception as e:
             res.probe("generator-skipped:" + type(e).__name__)
             continue
-        kkind = g.pick(["key", "key", "set", "callable-set", "callable-key"])
-        kname_used = kname if g.chance(0.8) else g.pick(["oct", "oct16", "rsa", "ec", "ed", "x"])
-        rname = g.pick(["default", "all", "all", "nonstrict", "any"])
         verdict = judge(entry, tok, w.keyarg(kkind, kname_used), regs[rname], sender_arg(w.mat, sender))
-        res.case(entry, json.dumps(tok, sort_keys=True, default=repr) if isinstance(tok, dict) else repr(tok), kkind, kname_used, rname)
+        flat = _flat(tok)
+        res.case(entry, flat if flat is not None else "deep:" + g.label, kkind, kname_used, rname)
+        if flat is None:
+            res.probe("input-nested-beyond-the-json-module")
+            tok_out = {"regenerate-from": g.label}       # too deep to serialise: the replay regenerates it from its label
+        else:
+            tok_out = tok
         res.fired("input:" + note.split(":")[0].split(" ")[0].split(".")[0])
         tr.add(i, entry, note.split(":")[0], verdict[0] if verdict else "-", digest=False)
         if i < 3:
-            res.sample({"entry": entry, "mutation": note, "input": tok if isinstance(tok, (str, dict)) else repr(tok), "key": [kkind, kname_used],
+            res.sample({"entry": entry, "mutation": note, "input": tok_out if isinstance(tok_out, (str, dict)) else repr(tok_out), "key": [kkind, kname_used],
                         "registry": rname})
         if verdict:
             res.violation(ID, verdict[0], "%s [input: %s; key %s/%s; registry %s]" % (verdict[1], note[:120], kkind, kname_used, rname),
-                          {"entry": entry, "input": tok if not isinstance(tok, bytes) else {"bytes": tok.hex()},
+                          {"entry": entry, "input": tok_out if not isinstance(tok_out, bytes) else {"bytes": tok_out.hex()},
                            "keys": {n_: rk.to_jwk(k, True) for n_, k in w.mat.items()}, "keykind": kkind, "keyname": kname_used,
                            "registry": rname, "sender": "set" if sender == "set" else (sender is not None)})
     res.events = n
     res.digest = tr.digest()
     return res
+
+
+def _flat(tok):
+    """canonical text of an input, None when it is nested too deeply to be written down"""
+    if not isinstance(tok, dict):
+        return repr(tok)
+    # iterative depth measure (pickle, json and deepcopy each give up at their own depth; 150 is safe for all of them)
+    stack, deepest = [(tok, 1)], 1
+    while stack:
+        o, d = stack.pop()
+        deepest = max(deepest, d)
+        if deepest > 150:
+            return None
+        if isinstance(o, dict):
+            stack.extend((v, d + 1) for v in o.values())
+        elif isinstance(o, list):
+            stack.extend((v, d + 1) for v in o)
+    return json.dumps(tok, sort_keys=True, default=repr)
+
+
+def gen_input(w, g):
+    """one input and the way it is delivered: a pure function of the world's key material and the generator label"""
+    sender = None
+    if g.chance(0.06):
+        entry, tok, kname, note = gen_random_input(g)
+    elif g.chance(0.5):
+        entry, tok, kname, note = gen_jws_input(w, g)
+    else:
+        entry, tok, kname, note, snd = gen_jwe_input(w, g)
+        if snd is not None and g.chance(0.85):
+            sender = K.to_jose_fast(snd.public(), False)
+            if g.chance(0.4):
+                # the sender's keys come as a key set of mixed key types; the token (not the caller) names one by "skid"
+                sender = "set"
+                skid = g.pick(["sender", "rsa", "oct", "ed", "x", "nope", 7])
+                tok = relabel(tok, "skid", skid, where="protected" if isinstance(tok, str) or g.chance(0.5) else "recipient")
+                note += " + skid := %r against a sender key set" % (skid,)
+    kkind = g.pick(["key", "key", "set", "callable-set", "callable-key"])
+    kname_used = kname if g.chance(0.8) else g.pick(["oct", "oct16", "rsa", "ec", "ed", "x"])
+    rname = g.pick(["default", "all", "all", "nonstrict", "any"])
+    return entry, tok, kname, note, sender, kkind, kname_used, rname
 
 
 def sender_arg(mats, sender):
@@ -608,6 +667,8 @@ def replay(repro: dict):
     tok = repro["input"]
     if isinstance(tok, dict) and set(tok) == {"bytes"}:
         tok = bytes.fromhex(tok["bytes"])
+    if isinstance(tok, dict) and set(tok) == {"regenerate-from"}:
+        tok = gen_input(w, Rng(tok["regenerate-from"]))[1]
     sender = sender_arg(mats, "set") if repro.get("sender") == "set" else (K.to_jose_fast(mats["sender"].public(), False) if repro.get("sender") else None)
     v = judge(repro["entry"], tok, w.keyarg(repro["keykind"], repro["keyname"]), registries()[repro["registry"]], sender)
     return [v] if v else []
